@@ -489,6 +489,7 @@ class Prover:
         self.seed = seed
         self.timeout = int(os.environ.get("VERIF_QUERY_TIMEOUT_MS", TIMEOUTS.get(tier, 20000)))
         self.records = []
+        self.fails = 0
         self.unknowns = 0
         self.paths = 0
         self.queries = 0
@@ -506,7 +507,7 @@ class Prover:
         assertions = list(assertions)
         t = time.time()
         r = None
-        if self.unknowns > 3:
+        if self.unknowns + self.fails > 3:
             retries = 0
         for attempt in range(retries + 1):
             s = z3.Solver()
@@ -541,6 +542,8 @@ class Prover:
         if verdict != "unsat" and getattr(self, "_cur", None):
             r["scenario"], r["params"], r["key"] = self._cur[0], self._cur[1], kw.pop("key", None)
         r.update(kw)
+        if verdict == "sat":
+            self.fails += 1
         self.records.append(r)
         return r
 
@@ -726,9 +729,9 @@ class Prover:
                 finding = self._classify(oname, pc, out, key)
                 self.rec(oname, "sat", time=round(time.time() - t0, 3), model=jsonable(env0), replay=rp0, refinements=0, finding=finding, via="abstraction-model")
                 return
-        if self.unknowns > 3:
+        if self.unknowns + self.fails > 3:
             # this job is already inconclusive/violating: do not spend the full budget on every query
-            self.timeout = min(self.timeout, 5000)
+            self.timeout = min(self.timeout, 3000)
         ax = self._axioms(pc + [neg], out)
         r, s, dt = self._check(pc + ax + [neg])
         rounds = 0
